@@ -2423,3 +2423,127 @@ Definition run_api_mup_case (family : N) (x : api_mup) : val :=
       VL [VI 1; VNs (mup_encode n); VI 1;
           VI (match mup_from_api v6_parse y with Some n' => 0 | None => 2 end); v_api_mup y]
   end.
+
+(* ------------------------------------------------------------------ *)
+(* The MUP decoder (packet/src/mup.rs MupNlri::decode and the four route decoders): the values a
+   session can hold.  A prefix and a partial TEID are copied in WHOLE octets: bits of the last octet
+   beyond the bit length are kept as received. *)
+Definition rd_decode (b : list N) : option rd :=
+  match b with
+  | [t1; t2; a; b2; c; d; e; f] =>
+      let t := of_be16 t1 t2 in
+      if t =? 0 then Some (RD2 (of_be16 a b2) (of_be32 c d e f))
+      else if t =? 1 then Some (RDIp (of_be32 a b2 c d) (of_be16 e f))
+      else if t =? 2 then Some (RD4 (of_be32 a b2 c d) (of_be16 e f))
+      else None
+  | _ => None
+  end.
+
+Definition fam_octets (v6 : bool) : nat := if v6 then 16%nat else 4%nat.
+Definition fam_bits (v6 : bool) : N := if v6 then 128 else 32.
+Definition mk_ip (v6 : bool) (a : N) : ipaddr := if v6 then IP6 a else IP4 a.
+Definition zeros (n : nat) : list N := repeat 0 n.
+
+(* decode_ip: exactly the family's number of octets *)
+Definition decode_ip (v6 : bool) (b : list N) : option ipaddr :=
+  if Nat.eqb (length b) (fam_octets v6) then Some (mk_ip v6 (of_bytes b)) else None.
+
+(* decode_prefix: ceil(bits / 8) octets copied into a zeroed address *)
+Definition decode_prefix (v6 : bool) (bits : N) (b : list N) : option ipaddr :=
+  let k := N.to_nat ((bits + 7) / 8) in
+  if fam_bits v6 <? bits then None
+  else if Nat.ltb (length b) k then None
+  else Some (mk_ip v6 (of_bytes (firstn k b ++ zeros (fam_octets v6 - k)))).
+
+Definition slice (from len : nat) (l : list N) : list N := firstn len (skipn from l).
+
+Definition mup_decode_body (v6 : bool) (rt : N) (data : list N) : option mup :=
+  let w := fam_octets v6 in
+  if Nat.ltb (length data) 8 then None else
+  match rd_decode (firstn 8 data) with
+  | None => None
+  | Some d =>
+      if rt =? 1 then
+        match skipn 8 data with
+        | plen :: rest => match decode_prefix v6 plen rest with Some a => Some (MupIsd d a plen) | None => None end
+        | [] => None
+        end
+      else if rt =? 2 then
+        match decode_ip v6 (skipn 8 data) with Some a => Some (MupDsd d a) | None => None end
+      else if rt =? 3 then
+        match skipn 8 data with
+        | plen :: rest =>
+            let pb := N.to_nat ((plen + 7) / 8) in
+            if Nat.ltb (length rest) (pb + 6) then None else
+            match decode_prefix v6 plen rest with
+            | None => None
+            | Some a =>
+                let teid := of_bytes (slice pb 4 rest) in
+                let qfi := nth (pb + 4) rest 0 in
+                let ea_len := nth (pb + 5) rest 0 in
+                if negb (ea_len =? fam_bits v6) then None
+                else if Nat.ltb (length rest) (pb + 6 + w + 1) then None
+                else match decode_ip v6 (slice (pb + 6) w rest) with
+                     | None => None
+                     | Some ep =>
+                         let sa_len := nth (pb + 6 + w) rest 0 in
+                         if sa_len =? 0 then Some (MupT1 d a plen teid qfi ep None)
+                         else if negb (sa_len =? fam_bits v6) then None
+                         else if Nat.ltb (length rest) (pb + 6 + w + 1 + w) then None
+                         else match decode_ip v6 (slice (pb + 6 + w + 1) w rest) with
+                              | Some s => Some (MupT1 d a plen teid qfi ep (Some s))
+                              | None => None
+                              end
+                     end
+            end
+        | [] => None
+        end
+      else if rt =? 4 then
+        match skipn 8 data with
+        | ea_len :: rest =>
+            if (ea_len <? fam_bits v6) || (fam_bits v6 + 32 <? ea_len) then None
+            else if Nat.ltb (length rest) w then None
+            else match decode_ip v6 (firstn w rest) with
+                 | None => None
+                 | Some ep =>
+                     let k := N.to_nat ((ea_len - fam_bits v6 + 7) / 8) in
+                     if Nat.ltb (length rest) (w + k) then None
+                     else Some (MupT2 d ea_len ep (of_bytes (slice w k rest ++ zeros (4 - k))))
+                 end
+        | [] => None
+        end
+      else None
+  end.
+
+(* MupNlri::decode: [architecture 1][route type: 2][length][body]; the NLRIs of an MP_REACH one after the other *)
+Fixpoint mup_decode_all (fuel : nat) (v6 : bool) (l : list N) : option (list mup) :=
+  match fuel with
+  | O => None
+  | S fuel' =>
+      match l with
+      | [] => Some []
+      | arch :: t1 :: t2 :: len :: rest =>
+          if negb (arch =? 1) then None
+          else if Nat.ltb (length rest) (N.to_nat len) then None
+          else match mup_decode_body v6 (of_be16 t1 t2) (firstn (N.to_nat len) rest),
+                     mup_decode_all fuel' v6 (skipn (N.to_nat len) rest) with
+               | Some n, Some ns => Some (n :: ns)
+               | _, _ => None
+               end
+      | _ => None
+      end
+  end.
+
+(* kind 10, MUP families: [decoded; [[Nlri::encode octets; API form listed; given back] ...]] *)
+Definition run_held_mup_case (v6 : bool) (l : list N) : val :=
+  match mup_decode_all (S (length l)) v6 l with
+  | None | Some [] => VL [VI 0]
+  | Some ns =>
+      VL [VI 1; VList (fun n =>
+                         let y := mup_to_api v6_print n in
+                         VL [VNs (mup_encode n); v_api_mup y;
+                             VI (match mup_from_api v6_parse y with
+                                 | Some n' => if mup_family_ok n' (if v6 then 131157 else 65621) then 0 else 2
+                                 | None => 2
+                                 end)]) ns]
+  end.
